@@ -1836,7 +1836,21 @@ pub(crate) mod convert {
         /// The only task the user needs to perform is to call
         /// [`FilterUnit::require_entry`] if the DIE is always required to be
         /// converted. Typically, a DIE will be required if it has a valid address range.
+        ///
+        /// After an error, all subsequent calls return `Ok(false)`.
         pub fn read_entry(&mut self, entry: &mut FilterUnitEntry<'a, R>) -> ConvertResult<bool> {
+            let result = self.read_entry_impl(entry);
+            if result.is_err() {
+                // The position and the parent stack are no longer reliable.
+                self.entries.empty();
+            }
+            result
+        }
+
+        fn read_entry_impl(
+            &mut self,
+            entry: &mut FilterUnitEntry<'a, R>,
+        ) -> ConvertResult<bool> {
             loop {
                 if self.entries.is_empty() {
                     return Ok(false);
@@ -2604,8 +2618,20 @@ pub(crate) mod convert {
         /// Returns a [`ConvertUnitEntry`] containing information about the DIE and its
         /// attributes.
         ///
-        /// Returns `Ok(None)` if there are no more entries.
+        /// Returns `Ok(None)` if there are no more entries, or if a previous call
+        /// returned an error.
         pub fn read_entry(
+            &mut self,
+            entry: &mut ConvertUnitEntry<'a, R>,
+        ) -> ConvertResult<Option<Option<UnitEntryId>>> {
+            let result = self.read_entry_impl(entry);
+            if result.is_err() {
+                self.read_entries.empty();
+            }
+            result
+        }
+
+        fn read_entry_impl(
             &mut self,
             entry: &mut ConvertUnitEntry<'a, R>,
         ) -> ConvertResult<Option<Option<UnitEntryId>>> {
